@@ -91,10 +91,36 @@ class TableInfo(object):
             # a name whose *elements* are used as tables is a container of tables
             containers = {s[:-2] for s in out if s.endswith('[]')}
             out = {s for s in out if s not in containers}
+            # an attribute the constructor initialises with a container it creates itself (self.cache = list()) is the
+            # view's own memo, not an input table, however it is iterated
+            if fn.cls is not None:
+                out -= self._own_containers(fn.cls)
             self._tp[fn] = out
             return out
         finally:
             self._tp_busy.discard(fn)
+
+    def _own_containers(self, cls):
+        r = self.__dict__.setdefault('_ownc', {}).get(cls)
+        if r is None:
+            r = set()
+            import ast as _ast
+            for c in self.ctx.res.mro(cls):
+                init = c.methods.get('__init__')
+                if init is None:
+                    continue
+                from .loader import own_nodes as _own, norm as _norm
+                for n in _own(init.node):
+                    if isinstance(n, _ast.Assign) and len(n.targets) == 1 and isinstance(n.targets[0], _ast.Attribute) \
+                            and isinstance(n.targets[0].value, _ast.Name) and n.targets[0].value.id == 'self':
+                        v = n.value
+                        fresh = isinstance(v, (_ast.List, _ast.Dict, _ast.Set)) or \
+                            (isinstance(v, _ast.Call) and _norm(v.func) in ('list', 'dict', 'set', 'OrderedDict', 'deque')
+                             and not v.args)
+                        if fresh:
+                            r.add('self.' + n.targets[0].attr)
+            self._ownc[cls] = r
+        return r
 
     def _callees(self, fn, ev):
         """(callee FunctionInfo, {param: (value, node)}) for a 'call' event."""
